@@ -1,14 +1,22 @@
 #!/bin/sh
 # MANIFEST.setup_cmd: regenerate the data tables from the live /repo modules, then build all Lean
-# targets (models, proofs, compiled driver). Offline; files on disk only.
-set -e
+# targets (models, compiled driver, proofs). Offline; files on disk only.
+# The driver (all models) must build; the proof modules are built one by one: a proof file that does
+# not build is reported here and fails ITS property's check (which rebuilds it), not the others.
 here="$(cd "$(dirname "$0")/.." && pwd)"
 cd "$here"
 export PYDOCTOR_REPO="${PYDOCTOR_REPO:-/repo}"
 export PYTHONPATH="$PYDOCTOR_REPO:$here"
 export PYTHONDONTWRITEBYTECODE=1
 if [ -f harness/tables.py ]; then
-  /venv/bin/python -c "from harness import tables; tables.generate()"
+  /venv/bin/python -c "from harness import tables; tables.generate()" || echo "setup: table generation failed (the checks that use the tables will report it)"
 fi
 cd lean
-lake build
+lake build driver || { echo "setup: the model driver does not build"; exit 1; }
+bad=""
+for f in PdProps/C[0-9][0-9].lean; do
+  m="PdProps.$(basename "$f" .lean)"
+  lake build "$m" >/dev/null 2>&1 || bad="$bad $m"
+done
+[ -n "$bad" ] && echo "setup: proof modules that do not build (their checks will report a broken obligation):$bad"
+exit 0
